@@ -511,7 +511,7 @@ const char* NT = "history with a delete/unlink after >=2 links, or a direction c
 
 // ------------------------------------------------------------------ random histories: <= 40 operations over <= 8 nodes
 // (a call that does not come back within 10 CPU-seconds is a violation: every call must return or raise)
-LAW(H_history, RC, 6000, 300000, 260, NT, 10, true) {
+LAW(H_history, RC, 5000, 250000, 260, NT, 10, true) {
   bool directed = !c.flag();
   World w(c, false, 8, directed);
   int nops = c.irange(1, 40);
@@ -574,9 +574,9 @@ static void sequences(vf::Ctx& c, bool graphOnly, int lenQuick, int lenThorough,
   c.nt(w.ntDelete || w.ntDirection || w.illRaised > 0);
 }
 // every operation (graph, observer, copy/assign/drop): length <= 2 quick, <= 3 thorough
-LAW(E_sequences, ENUM, 16, ENUM_T, 0, NT, 5, true) { static std::unordered_map<uint64_t, uint64_t> seen; sequences(c, false, 2, 3, seen); }
+LAW(E_sequences, ENUM, 16, ENUM_T, 0, NT, 3, true) { static std::unordered_map<uint64_t, uint64_t> seen; sequences(c, false, 2, 3, seen); }
 // operations on the graph only (the observer of the start configuration looks on): length <= 3 quick, <= 4 thorough
-LAW(E_graph_sequences, ENUM, 16, ENUM_T, 0, NT, 5, true) { static std::unordered_map<uint64_t, uint64_t> seen; sequences(c, true, 3, 4, seen); }
+LAW(E_graph_sequences, ENUM, 16, ENUM_T, 0, NT, 3, true) { static std::unordered_map<uint64_t, uint64_t> seen; sequences(c, true, 3, 4, seen); }
 
 // The laws allocate many small containers per case: keep the allocation stack traces of ASan short (detection is unchanged).
 extern "C" const char* __asan_default_options() { return "malloc_context_size=3"; }
